@@ -142,7 +142,7 @@ def run_tlc(module, cfg_text, *, workers=None, timeout=1200, env=None, extra=(),
         r["depth"] = int(m.group(1))
     cov = {}
     for m in _RE_COV.finditer(out):
-        cov[m.group(1)] = cov.get(m.group(1), 0) + int(m.group(4))
+        cov[m.group(1)] = cov.get(m.group(1), 0) + int(m.group(5))      # "<distinct>:<taken>": how often the action was taken
     r["coverage"] = cov
     viol = None
     m = re.search(r"Error: Invariant (\w+) is violated", out)
